@@ -489,6 +489,110 @@ def real_decoder(p):
     return getattr(m, "deserialize_" + p)
 
 
+# ================================================================== separate calls, separate results
+# "decoding the URL produced for a problem returns that problem" holds for EVERY decode, whatever the caller did with the
+# result of an earlier one; "identical data -> identical text" holds whatever was encoded before.
+
+COMB_PUZZLES = GRID + ROOMS + ["heyawake"]
+
+
+def decode_entries(p, url):
+    """Every way the real code offers to decode `url` of module `p`: [(name, thunk)]."""
+    import cspuz.problem_serializer as ps
+    out = [("%s(url)" % real_decoder(p).__name__, lambda: real_decoder(p)(url))]
+    if p in COMB_PUZZLES:
+        comb = _objs()[p][1]
+        out.append(("deserialize_problem_as_url(%s_COMBINATOR, url, return_size=True)" % p.upper(),
+                    lambda: ps.deserialize_problem_as_url(comb, url, return_size=True)))
+        out.append(("deserialize_problem_as_url(%s_COMBINATOR, url, allowed_puzzles=[%r], allow_failure=True)" % (p.upper(), PZNAME[p]),
+                    lambda: ps.deserialize_problem_as_url(comb, url, allowed_puzzles=[PZNAME[p]], allow_failure=True)))
+        m = ps._DESERIALIZE_URL_REG.match(url)
+        if m is not None:
+            body, hh, ww = m[4], int(m[3]), int(m[2])
+            out.append(("deserialize_problem(%s_COMBINATOR, %r, height=%d, width=%d)" % (p.upper(), body, hh, ww),
+                        lambda: ps.deserialize_problem(comb, body, height=hh, width=ww)))
+    return out
+
+
+_PUZZLE_OBJECTS = []
+
+
+def _objs():
+    if not _PUZZLE_OBJECTS:
+        _PUZZLE_OBJECTS.append(sc.puzzle_objects())
+    return _PUZZLE_OBJECTS[0]
+
+
+def check_alias(p, url, which=None, first=None):
+    """decode -> the caller edits the decoded problem in place -> decode the same URL again: the second result is the
+    problem again.  `which` selects entry points of decode_entries by index (None = all); `first` = outcome of entry 0 that
+    was already computed (consumed).  Returns None or (signature, text)."""
+    ents = decode_entries(p, url)
+    for i, (name, thunk) in enumerate(ents):
+        if which is not None and i not in which:
+            continue
+        bad = sc.alias_probe(thunk, 5, first if i == 0 else None)
+        if bad:
+            return (_sig(p, "decoded-problem-shared-between-calls"), "%s with url = %r: %s" % (name, url, _short(bad, 900)))
+    return None
+
+
+def vary_in_place(pb):
+    """Turns the problem held by pb["args"] IN PLACE (same list objects) into another valid problem of the same module and
+    board; an involution (a second call restores it).  Returns False if this problem has no such variation."""
+    p, a = pb["p"], pb["args"]
+    if p in GRID:
+        g = a[0]
+    elif p == "star_battle":
+        g = a[2]
+    else:
+        g = None
+    if g is not None:
+        if len(g) >= 2 and g[0] != g[-1]:
+            g.reverse()
+            return True
+        if g and len(g[0]) >= 2 and any(r != r[::-1] for r in g):
+            for r in g:
+                r.reverse()
+            return True
+        return False
+    if p == "heyawake" and len(a) == 4 or p == "aquarium":
+        for l in a[3:]:
+            if l != l[::-1]:
+                l.reverse()
+                return True
+        return False
+    if p == "compass":
+        pos = a[2]
+        if pos and any(c[2:] != c[2:][::-1] for c in pos):
+            pos[:] = [c[:2] + c[2:][::-1] for c in pos]
+            return True
+    return False
+
+
+def check_encoder_state(pb):
+    """identical data -> identical text, whatever the encoder was given before: encode, edit the argument lists in place
+    into another problem, encode the SAME objects again and a fresh deep copy of them: same outcome.  -> None or (sig, text)"""
+    import copy
+    p = pb["p"]
+    enc = real_encoder(p)
+    sc.run_guarded(lambda: enc(*pb["args"]), 5)
+    if not vary_in_place(pb):
+        return None
+    try:
+        same = sc.run_guarded(lambda: enc(*pb["args"]), 5)
+        fresh_args = copy.deepcopy(pb["args"])
+        fresh = sc.run_guarded(lambda: enc(*fresh_args), 5)
+        shown = repr(fresh_args)
+    finally:
+        vary_in_place(pb)
+    if same != fresh:
+        return (_sig(p, "encoder-remembers-earlier-argument"),
+                "%s: after encoding a problem and editing its lists in place into %s, encoding the same objects gives %r but equal fresh "
+                "objects give %r" % (enc.__name__, _short(shown, 600), same, fresh))
+    return None
+
+
 # ================================================================== s-expressions of the model ops
 
 def _ints(l):
@@ -596,6 +700,19 @@ def _short(x, n=400):
     return s if len(s) <= n else s[:n] + "…"
 
 
+def _property(ctx, r, data):
+    """r = None or (signature, text) from an oracle of the property itself (real code only): a disagreement of kind
+    `property:` plus the concrete failing input"""
+    if r is None:
+        return
+    ctx.count("property-oracle:FAIL")
+    ctx.disagree("property:" + r[0], what=r[1])
+    if not hasattr(ctx, "concrete"):
+        ctx.concrete = []
+    if not any(f.signature == r[0] for f in ctx.concrete):
+        ctx.concrete.append(Finding(r[0], r[1], data))
+
+
 def correspond(ctx):
     ctx.extra["rule"] = (
         "per module (nurikabe, masyu, slitherlink, sudoku, nurimisaki, yajilin, heyawake [both argument forms], lits, norinori, compass, "
@@ -604,7 +721,10 @@ def correspond(ctx):
         "and cells shuffled -> real encoder vs model (exact URL text or exception class); every real URL -> real decoder vs model, "
         "get_puzzle_info_from_url vs model, and the independent pzpr decoder (Lean Spec/Pzpr.lean through the driver, and its plain-Python twin) "
         "vs the problem; one-mutation URLs -> real decoder vs model; legacy util.encode_array / encode_grid_segmentation / blocks_to_block_id "
-        "on valid and malformed arguments vs model. non-trivial+distinct = (module, problem) with a produced URL, or (module, text) decoded to a value")
+        "on valid and malformed arguments vs model; after every successful decode (module decoder, deserialize_problem_as_url with / without "
+        "return_size / allowed_puzzles, deserialize_problem; blocks_to_block_id too) the returned value is edited in place and the same call "
+        "repeated: same problem again; every third problem: encode, edit the argument lists in place into another problem, encode the same "
+        "objects and a fresh deep copy: same text. non-trivial+distinct = (module, problem) with a produced URL, or (module, text) decoded to a value")
     ctx.extra["assumptions"] = [PATCH_NOTES,
                                 "the pzpr URL format as written in lean/CspuzModel/Spec/Pzpr.lean and its Python twin in harness/c16.py (from the public "
                                 "format description; pzprjs source not available offline; cross-checked only against the URLs in /repo/tests and /repo/bench)"]
@@ -633,6 +753,9 @@ def correspond(ctx):
                          model=_short(sc.sx_str(core.parse_sx(mo)[1]) if mo.startswith("(ok") else mo, 600))
         if o[0] == "ret" and isinstance(o[1], str):
             urls.append((pb, o[1]))
+            if len(urls) % 3 == 0:
+                ctx.count("encoder-state-probe")
+                _property(ctx, check_encoder_state(pb), _pb_data(pb))
     # ---- 2. decoders, info, pzpr on the real URLs
     lines, ops = [], []
     for pb, url in urls:
@@ -651,6 +774,7 @@ def correspond(ctx):
         ops.append(("pz", pb, url, name, cols, rows, body))
         lines.append("(pz %s %d %d %s)" % (PZKIND[p], rows, cols, sc.cps(body)))
     outs = drv.run(lines)
+    nprobe = 0
     for op, mo in zip(ops, outs):
         kind, pb, url = op[0], op[1], op[2]
         p = pb["p"]
@@ -662,6 +786,11 @@ def correspond(ctx):
             ctx.case({"op": "decode", "module": p, "url": url, "real": _short(ro, 200)}, ("dec", p, url) if ro.startswith("(ok") else None)
             if ro != mo:
                 ctx.disagree("decode-model-vs-code", module=p, url=url, args=_short(pb["args"], 1500), real=_short(ro, 800), model=_short(mo, 800))
+            if o[0] == "ret" and o[1] is not None:
+                # separate calls, separate results: the decoded value is edited in place (it is not used any more), the same
+                # URL is decoded again; entry 0 = the module's decoder, plus one of the lower-level entry points in turn
+                nprobe += 1
+                _property(ctx, check_alias(p, url, which=(0, 1 + nprobe % 3), first=o), _pb_data(pb))
         elif kind == "info":
             o = sc.run_guarded(lambda: get_puzzle_info_from_url(url), 5)
             ro = info_outcome(o)
@@ -716,6 +845,8 @@ def correspond(ctx):
         ctx.case({"op": "decode-mutated", "module": p, "url": mu, "how": how, "real": _short(ro, 200)}, ("mut", p, mu) if ro.startswith("(ok") else None)
         if ro != mo:
             ctx.disagree("decode-mutated-model-vs-code", module=p, url=mu, mutation=how, real=_short(ro, 800), model=_short(mo, 800))
+        if o[0] == "ret" and o[1] is not None:
+            _property(ctx, check_alias(p, mu, which=(0,), first=o), {"kind": "alias-url", "module": p, "url": mu})
     # ---- 4. the legacy helper encoders
     _correspond_legacy(ctx, rng, drv)
 
@@ -793,6 +924,13 @@ def _correspond_legacy(ctx, rng, drv):
         ctx.case({"op": op[0], "args": _short(op[1:], 300), "real": _short(ro, 200)}, (op[0], repr(op[1:])) if ro.startswith("(ok") else None)
         if ro != mo:
             ctx.disagree("legacy-model-vs-code", op=op[0], args=_short(op[1:], 2000), real=_short(ro, 600), model=_short(mo, 600))
+        if op[0] == "b2id" and o[0] == "ret":
+            # the id grid handed out is the caller's: edited in place, the same call must give the same grid again
+            bad = sc.alias_probe(lambda: util.blocks_to_block_id(hh, ww, blocks), 5, first=o)
+            if bad:
+                _property(ctx, ("legacy:blocks_to_block_id-result-shared-between-calls",
+                                "blocks_to_block_id(%d, %d, %r): %s" % (hh, ww, blocks, _short(bad, 900))),
+                          {"kind": "b2id-alias", "h": hh, "w": ww, "rooms": repr(blocks)})
 
 
 # ================================================================== search: the real code against the Python oracle
@@ -842,7 +980,12 @@ def check_problem(pb):
             if p == "compass" and o[1] is not None and tuple(o[1][:2]) == (w, h) and h != w:
                 sig = "width-height-swapped"
             return (_sig(p, sig), "decode(encode(pb)) != pb: URL %r decodes to %s, expected %s" % (url, _short(o[1], 400), _short(pb["expect"], 400)))
-    return None
+        # ... on every decode, whatever the caller did with the result of an earlier one (every entry point)
+        r = check_alias(p, url)
+        if r:
+            return r
+    # identical data -> identical text, whatever was encoded before
+    return check_encoder_state(pb)
 
 
 def check_legacy(arr2d, empty, h, w):
@@ -869,6 +1012,9 @@ def check_segmentation(h, w, rooms):
     b = sc.run_guarded(lambda: ps.serialize_problem(ps.Rooms(), rooms, height=h, width=w), 5)
     if a != b:
         return ("legacy:encode_grid_segmentation-vs-Rooms", "encode_grid_segmentation(%d, %d, blocks_to_block_id(%r)) -> %r but Rooms() -> %r" % (h, w, rooms, a, b))
+    bad = sc.alias_probe(lambda: util.blocks_to_block_id(h, w, rooms), 5)
+    if bad:
+        return ("legacy:blocks_to_block_id-result-shared-between-calls", "blocks_to_block_id(%d, %d, %r): %s" % (h, w, rooms, _short(bad, 900)))
     return None
 
 
@@ -935,6 +1081,14 @@ def replay(ctx, data):
         return None if r is None else Finding(r[0], r[1], data)
     if k == "legacy":
         r = check_legacy(ast.literal_eval(data["arr"]), ast.literal_eval(data["empty"]), data["h"], data["w"])
+        return None if r is None else Finding(r[0], r[1], data)
+    if k == "b2id-alias":
+        from cspuz.puzzle import util
+        rooms = ast.literal_eval(data["rooms"])
+        bad = sc.alias_probe(lambda: util.blocks_to_block_id(data["h"], data["w"], rooms), 5)
+        return None if bad is None else Finding("legacy:blocks_to_block_id-result-shared-between-calls", _short(bad, 900), data)
+    if k == "alias-url":
+        r = check_alias(data["module"], data["url"])
         return None if r is None else Finding(r[0], r[1], data)
     if k == "segmentation":
         r = check_segmentation(data["h"], data["w"], ast.literal_eval(data["rooms"]))
